@@ -9,13 +9,22 @@ history   A case is {world, ops, sweep}.  `world` describes a small graph (regis
           parsers on 1-2 components, combiners on parsers/combiners); `ops` is a list of
           add_filter / get_filters operations that is interpreted against the real registries and
           against a model that knows nothing about insights.core.dr.  After every step (sweep) the
-          look-up of every datasource of the world is compared with the model.
+          look-up of every datasource of the world is compared with the model.  Spec sets may be declared
+          late: `pre` operations (registrations on specs / through parsers, look-ups of specs and of the
+          still unbound datasource objects) run first, then the SpecSet subclasses marked `late` are defined,
+          then `ops`.
 
 content   A case is {lines, filters, kind, ...}.  Tagged content is written into a sandbox file and
           taken through the application paths: host-side provider (really runs `grep -F` through a
           recording HostContext), the same provider written out through the Cleaner (what collection
           persists), archive-side provider (post-filter with budgets), Cleaner.clean_content with an
           allow-list, and the filters.apply_filters helper.  Validity predicates (a)-(e) of the design.
+          Generated besides content and filters: the order in which the world comes about (registrations on
+          the spec before any implementation exists, look-ups / evaluations of the datasource objects before
+          they are declared as implementations, first_of wrapper declared after its member was used), how
+          the collected copy is stored (write() after or before anything looked at .content, or the
+          Hydration persister as broker observer, each with or without a Cleaner), the evaluation entry
+          point (dr.run / dr.run_all) and a second write-and-look on the same provider.
 
 Nothing from insights.tests is imported (it monkey-patches filters.add_filter)."""
 import atexit
@@ -37,13 +46,19 @@ RULE = ("history: generated component graph (points F/M/P/R, 1-3 implementing sp
         "add_filter(target in point/implementation/parser/combiner/derived datasource, str|list|set, "
         "budget, occasionally invalid pattern/budget/target) and get_filters operations; after every "
         "step every datasource is looked up (set and with_matches) and compared with a model union. "
-        "Non-trivial history: a successful registration changes the effective set of a datasource "
-        "that was looked up before (stale-cache window). "
+        "Spec sets may be declared late (after `pre` registrations / look-ups of the still unbound "
+        "datasource objects). Non-trivial history: a successful registration - or a late declaration - "
+        "changes the effective set of a datasource that was looked up before (stale-cache window). "
         "content: tagged lines (#n# prefix, empty lines, filler, embedded filters and near misses) x "
         "1-4 filters (regex metacharacters, leading dashes, blanks, non-ASCII, substrings of each "
         "other) registered on point / host implementation / archive implementation / parsers with "
         "budgets 1,2,3,MAX x implementation kind (simple_file, first_file, glob_file, "
-        "first_of([..]), simple_command) through five application paths. Non-trivial content: >= 1 "
+        "first_of([..]), simple_command) through five application paths; x construction order "
+        "(registration on the spec before any implementation exists / look-up or evaluation of the "
+        "datasource objects under a host or archive context before they are declared implementations / "
+        "wrapper declared after use) x how the collected copy is stored (write() after or before "
+        ".content, Hydration.make_persister observer; with / without Cleaner) x dr.run / dr.run_all x "
+        "second write-and-look. Non-trivial content: >= 1 "
         "line dropped and >= 1 kept on some path and (a filter has a regex metacharacter or leading "
         "dash, or a matching line was dropped because of an exhausted budget).")
 ASSUMPTIONS = [
@@ -53,6 +68,12 @@ ASSUMPTIONS = [
     "filterable ones only) is the documented propagation rule of insights.core.filters.add_filter",
     "when one filter string was registered with several budgets the budget in force may be any value "
     "between the smallest and the largest registered one (the statement does not say which)",
+    "what a datasource object yields, and which filters a look-up reports for it, while no SpecSet subclass "
+    "has declared it as an implementation is not part of the statement: such look-ups / evaluations are made "
+    "(for what they may leave behind) but nothing is asserted about their results",
+    "the file a provider's write() / the Hydration persister stores on a host IS content of the spec (it is "
+    "what the archive will hold): it must satisfy the same predicates (a)-(d) whether or not a Cleaner is "
+    "present and whether or not .content was looked at before",
 ]
 EXCLUDED = [
     "INSIGHTS_FILTERS_ENABLED=False mode (design X)",
@@ -182,13 +203,22 @@ class Model(object):
 
         for i, k in enumerate(kinds):
             add("P%d" % i, "point", k in "FM", k in "FM", [])
+        late = list(world.get("late") or [])
+        self.late = [bool(late[s]) if s < len(late) else False for s in range(len(world["sets"]))]
+        self.members = {}        # set index -> [(implementation name, point index)]
         for s, impls in enumerate(world["sets"]):
             for i, spec in enumerate(impls[:len(kinds)]):
                 if spec is None:
                     continue
                 spec = norm_impl(kinds, i, spec)
                 name = "I%d.%d" % (s, i)
-                add(name, "impl", kinds[i] in "FM", kinds[i] in "FM", ["P%d" % i])
+                self.members.setdefault(s, []).append((name, i))
+                if self.late[s]:
+                    # the object exists, but no SpecSet subclass declares it as an implementation yet:
+                    # no attribute `filterable`, registrations refused, not connected to the point
+                    add(name, "impl", None, False, [])
+                else:
+                    add(name, "impl", kinds[i] in "FM", kinds[i] in "FM", ["P%d" % i])
                 if spec["k"] == "fo_inner":
                     for j in (0, 1):
                         add("%s.%d" % (name, j), "inner", None, False, [name])
@@ -224,6 +254,22 @@ class Model(object):
             deps = clean if clean else deps    # exclusion: no mixing of derived and direct routes
             self.deps[name] = dedup(deps)
             self.corder.append(name)
+
+    # ---- binding -----------------------------------------------------------------------------
+    def unbound_sets(self):
+        return [s for s in sorted(self.members) if self.late[s]]
+
+    def bind(self, s):
+        """the SpecSet subclass of set `s` is defined now"""
+        for name, i in self.members.get(s, []):
+            d = self.ds[name]
+            d["flt"] = d["reg"] = self.kinds[i] in "FM"
+            d["up"] = ["P%d" % i]
+        self.late[s] = False
+
+    def attached(self, c):
+        """False for an object that is not (part of) an implementation of any spec (yet)"""
+        return self.ds[self.own_chain(c)[-1]]["kind"] not in ("impl", "inner")
 
     # ---- naming ------------------------------------------------------------------------------
     def by_kind(self, kind):
@@ -293,7 +339,7 @@ class Model(object):
 
     def own_chain(self, c):
         chain = [c]
-        while self.ds[chain[-1]]["kind"] in ("impl", "inner"):
+        while self.ds[chain[-1]]["kind"] in ("impl", "inner") and self.ds[chain[-1]]["up"]:
             chain.append(self.ds[chain[-1]]["up"][0])
         return chain
 
@@ -370,6 +416,7 @@ def build_world(world, model):
     u = next(_uid)
     kinds = world["points"]
     comps = {}
+    binders = {}                 # late sets: set index -> function that defines the SpecSet subclass
     ns = {}
     for i, k in enumerate(kinds):
         ns["p%d" % i] = RegistryPoint(filterable=k in "FM", raw=(k == "R"), multi_output=(k == "M"))
@@ -405,11 +452,19 @@ def build_world(world, model):
             else:
                 raise HarnessError("unknown implementation kind %r" % k)
             d["p%d" % i] = obj
-        keys = sorted(d)                     # the metaclass adds entries of its own to the dict
-        ImplCls = type("C07Impl%d_%d" % (u, s), (RegCls,), d)
-        for key in keys:
-            comps["I%d.%s" % (s, key[1:])] = getattr(ImplCls, key)
+            comps["I%d.%d" % (s, i)] = obj
         comps.update(inners)
+
+        def binder(s=s, d=d):
+            keys = sorted(d)                     # the metaclass adds entries of its own to the dict
+            ImplCls = type("C07Impl%d_%d" % (u, s), (RegCls,), dict(d))
+            for key in keys:
+                if getattr(ImplCls, key) is not comps["I%d.%s" % (s, key[1:])]:
+                    raise HarnessError("an implementation is expected to be the datasource object itself")
+        if model.late[s]:
+            binders[s] = binder
+        else:
+            binder()
     for x, ex in enumerate(world["extras"]):
         on = norm_on(kinds, len(kinds), ex["on"], 1 if ex["k"] == "head" else 2)
         if ex["k"] == "head":
@@ -427,7 +482,7 @@ def build_world(world, model):
     missing = [n for n in model.order + model.porder + model.corder if n not in comps]
     if missing or len(comps) != len(model.order) + len(model.porder) + len(model.corder):
         raise HarnessError("model and world disagree about the components: %r" % (missing,))
-    return comps
+    return comps, binders
 
 
 BAD = ("empty", "list-empty", "tuple", "none", "mm0", "mm-neg", "mm-none", "mm-str", "mm-bool",
@@ -446,13 +501,19 @@ def _pattern_arg(op):
 
 def check_history(case):
     from insights.core import filters
-    world, ops, sweep = case["world"], case["ops"], case.get("sweep", "every")
+    world, sweep = case["world"], case.get("sweep", "every")
     model = Model(world)
+    # sets marked late are declared (class statement) only after the `pre` operations: until then their members
+    # are plain datasource objects that can be looked up and that parsers can depend on
+    ops = list(case.get("pre") or [])
+    if model.unbound_sets():
+        ops.append({"op": "bind"})
+    ops = ops + list(case["ops"])
     labels = set()
     looked = set()
     stale_windows = 0
     with _Isolation():
-        comps = build_world(world, model)
+        comps, binders = build_world(world, model)
         dsnames = list(model.order)
 
         def lookup(name, step, how):
@@ -464,6 +525,12 @@ def check_history(case):
             if got != set(gotm):
                 raise Violation("get_filters(%s) and get_filters(%s, with_matches=True) disagree" % (name, name),
                                 plain=sorted(got), with_matches=sorted(gotm), step=step)
+            if not model.attached(name):
+                # not an implementation of anything (yet): the statement says nothing about it; the look-up
+                # is made for what it may leave behind
+                looked.add(name)
+                labels.add("looked-up-while-unbound")
+                return
             lack = sorted(set(must) - got)
             extra = sorted(got - set(may))
             if lack or extra:
@@ -486,6 +553,23 @@ def check_history(case):
                 name = model.resolve_ds(op["t"])
                 lookup(name, step, "explicit look-up")
                 labels.add("get:" + model.ds[name]["kind"])
+            elif kind == "bind":
+                before = dict((n, set(model.bounds(n)[0])) for n in dsnames)
+                was = dict((n, model.attached(n)) for n in dsnames)
+                for s_ in model.unbound_sets():
+                    binders[s_]()
+                    model.bind(s_)
+                labels.add("late-binding")
+                hit = [n for n in dsnames if n in looked and (set(model.bounds(n)[0]) != before[n] or not was[n])]
+                if hit:
+                    labels.add("late-binding:after-look-up")
+                if any(set(model.bounds(n)[0]) for n in hit):
+                    # a look-up made before the binding must not hide what the binding brings into force
+                    stale_windows += 1
+                    labels.add("late-binding:brings-filters-into-force-for-looked-up")
+                if sweep != "end":
+                    for n in dsnames:
+                        lookup(n, step, "declaration of the late spec sets")
             else:
                 target = model.resolve_target(op["t"])
                 pats, arg = _pattern_arg(op)
@@ -566,7 +650,7 @@ def describe(model, name):
         if d["kind"] == "point":
             return "registry point kind %s" % model.kinds[int(name[1:])]
         if d["kind"] == "impl":
-            return "implementation of %s" % d["up"][0]
+            return ("implementation of %s" % d["up"][0]) if d["up"] else "datasource not yet declared as implementation"
         if d["kind"] == "inner":
             return "anonymous datasource inside %s" % d["up"][0]
         return "derived non-filterable datasource"
@@ -612,7 +696,10 @@ def _world(draw):
         st.fixed_dictionaries({"t": st.just("ds"), "r": dsref}))
     combiners = draw(st.lists(st.fixed_dictionaries({"deps": st.lists(cref, min_size=1, max_size=3)}),
                               max_size=3))
-    return {"points": kinds, "sets": sets, "extras": extras, "parsers": parsers, "combiners": combiners}
+    # half of the worlds declare all spec sets up front; in the others each set may be declared late
+    late = [draw(st.booleans()) for _s in sets] if draw(st.booleans()) else [False] * len(sets)
+    return {"points": kinds, "sets": sets, "extras": extras, "parsers": parsers, "combiners": combiners,
+            "late": late}
 
 
 _tref = st.fixed_dictionaries({
@@ -637,8 +724,12 @@ def strat_history(tier):
     nmax = 30 if tier == "quick" else 50
     # (one_of() removes repeated identical strategies, so weights are drawn explicitly)
     op = st.integers(0, 5).flatmap(lambda i: (_add, _add, _add, _get, _get, _bad)[i])
+    # `pre`: what happens before the late spec sets are declared (registrations on the specs and through parsers,
+    # as plugins do at import time, and look-ups of points and of the still unbound datasource objects)
+    pre = st.integers(0, 6).flatmap(lambda i: (_add, _add, _get, _get, _get, _get, _bad)[i])
     return st.fixed_dictionaries({
         "world": _world(),
+        "pre": st.lists(pre, max_size=6),
         "ops": st.lists(op, min_size=1, max_size=nmax),
         "sweep": st.sampled_from(["every", "every", "every", "alt", "end"])})
 
@@ -756,6 +847,22 @@ def validate(path, orig, kept, budgets, exact):
 
 KINDS = ("file", "first_file", "glob", "first_of", "cmd")
 PLACES = ("point", "host", "arch", "parser", "hparser")
+PERSIST_MODES = ("content-first", "write-first", "observer")
+
+
+def _run(dr, engine, comp, broker):
+    """evaluate `comp` and what it depends on; `engine` = which of the two public entry points is used"""
+    graph = dr.get_dependency_graph(comp)
+    if engine == "run_all":
+        # what insights.collect.collect() calls (sub-graphs sorted by the specs' priority)
+        brokers = dr.run_all(components=graph, broker=broker)
+        for b in brokers:
+            if b is not broker:
+                raise HarnessError("run_all() with a seed broker is expected to evaluate into that broker")
+        return broker
+    if engine != "run":
+        raise HarnessError("unknown engine %r" % engine)
+    return dr.run(graph, broker)
 
 
 def build_lines(case):
@@ -775,6 +882,7 @@ def check_content(case):
     from insights.core.context import HostArchiveContext, HostContext
     from insights.core.exceptions import CalledProcessError, ContentException
     from insights.core.plugins import parser
+    from insights.core.serde import Hydration
     from insights.core.spec_factory import (ContentProvider, RegistryPoint, SpecSet, first_file,
                                             first_of, glob_file, simple_command, simple_file)
     kind = case["kind"]
@@ -790,6 +898,7 @@ def check_content(case):
     labels = set(["kind=" + kind])
     u = next(_uid)
     root = _new_sandbox()
+    outroot = _new_sandbox()         # everything the check itself writes (outside of what (e) watches)
     try:
         with _Isolation():
             os.mkdir(os.path.join(root, "d"))
@@ -797,9 +906,17 @@ def check_content(case):
             fpath = os.path.join(root, rel)
             with open(fpath, "wb") as f:
                 f.write(text.encode("utf-8"))
-            # ---- world ----------------------------------------------------------------------
+            # ---- world, built in stages ------------------------------------------------------
+            # The order in which a real process gets there is not fixed: datasource objects exist (and may be
+            # looked up / evaluated) before a SpecSet subclass declares them as implementations, wrappers
+            # (first_of) may be declared after their members were used, registrations on the spec may come
+            # before any implementation exists.  `early` / `late_wrap` / the filters' `when` generate that.
             RegCls = type("C07CReg%d" % u, (SpecSet,), {
                 "spec": RegistryPoint(filterable=True, multi_output=(kind == "glob"))})
+            point = RegCls.spec
+            pparser = parser(point)(type("C07CP%d" % u, (object,), {}))
+            early = [e for e in case.get("early") or [] if e.get("do") in ("get", "eval")]
+            late_wrap = bool(case.get("late_wrap")) and kind == "first_of"
             inner = None
             if kind == "file":
                 himpl = simple_file(rel, context=HostContext)
@@ -809,24 +926,14 @@ def check_content(case):
                 himpl = glob_file("d/lo*", context=HostContext)
             elif kind == "first_of":
                 inner = simple_file(rel, context=HostContext)
-                himpl = first_of([simple_file("d/absent", context=HostContext), inner])
+                absent = simple_file("d/absent", context=HostContext)
+                himpl = None if late_wrap else first_of([absent, inner])
             else:
                 himpl = simple_command("/bin/cat %s" % fpath)
-            HostImpl = type("C07CHost%d" % u, (RegCls,), {"spec": himpl})
-            ArchImpl = type("C07CArch%d" % u, (RegCls,), {"spec": simple_file(rel, context=HostArchiveContext)})
-            point, himpl, aimpl = RegCls.spec, HostImpl.spec, ArchImpl.spec
-            hds = inner if inner is not None else himpl      # the datasource the host provider is built by
-            pparser = parser(point)(type("C07CP%d" % u, (object,), {}))
-            hparser = parser(himpl)(type("C07CHP%d" % u, (object,), {}))
-            targets = {"point": point, "host": himpl, "arch": aimpl, "parser": pparser, "hparser": hparser}
-            # ---- registrations (optionally after a look-up: stale-cache window) --------------
-            if case.get("prelook"):
-                for c in (hds, himpl, aimpl, point):
-                    filters.get_filters(c)
-                    filters.get_filters(c, True)
-                labels.add("look-up-before-registration")
+            aimpl = simple_file(rel, context=HostArchiveContext)
             hb, ab, pb = {}, {}, {}      # filter -> smallest registered budget, per look-up target
-            for n, (p, b, at) in enumerate(regs):
+
+            def register(n, p, b, at, targets):
                 filters.add_filter(targets[at], p if case.get("one_by_one", True) else [p], b)
                 labels.add("at=" + at)
                 if at in ("point", "parser", "host", "hparser"):
@@ -835,6 +942,68 @@ def check_content(case):
                     ab[p] = min(b, ab.get(p, b))
                 if at in ("point", "parser"):
                     pb[p] = min(b, pb.get(p, b))
+
+            def when_of(f_at, f_when):
+                # an object that is not (yet) an implementation of a filterable spec refuses registrations
+                return f_when if (f_when in ("early", "mid") and f_at in ("point", "parser")) else "late"
+            whens = [when_of(f["at"], f.get("when", "late")) for f in case["filters"]
+                     if f["p"] and "\n" not in f["p"] and f["at"] in PLACES]
+            pre_targets = {"point": point, "parser": pparser}
+            for n, (p, b, at) in enumerate(regs):
+                if whens[n] == "early":
+                    register(n, p, b, at, pre_targets)
+                    labels.add("registered-before-any-implementation")
+            for e in early:
+                on = e.get("on", "host")
+                obj = point if on == "point" else aimpl if on == "arch" else (himpl if himpl is not None else inner)
+                if e["do"] == "get":
+                    filters.get_filters(obj)
+                    filters.get_filters(obj, True)
+                else:
+                    # what an unbound datasource yields is not part of the statement: nothing is asserted
+                    eb = dr.Broker()
+                    if on == "arch":
+                        eb[HostArchiveContext] = HostArchiveContext(root)
+                    else:
+                        eb[HostContext] = HostContext(root)
+                    eb["cleaner"] = None
+                    _run(dr, e.get("engine", "run"), obj, eb)
+                    ev = eb.get(obj)
+                    if isinstance(ev, list) and ev:
+                        ev = ev[0]
+                    if isinstance(ev, ContentProvider):
+                        try:
+                            ev.content
+                        except (ContentException, CalledProcessError):
+                            pass
+                labels.add("before-binding:%s-%s" % (e["do"], on))
+            for n, (p, b, at) in enumerate(regs):
+                if whens[n] == "mid":
+                    register(n, p, b, at, pre_targets)
+                    labels.add("registered-between-use-and-binding" if early else
+                               "registered-before-any-implementation")
+            if stale_cache_class(case):
+                labels.add("registered,used-unbound,bound,no-later-registration")
+            if himpl is None:
+                himpl = first_of([absent, inner])
+                labels.add("wrapper-declared-late" + ("-after-use" if early else ""))
+            HostImpl = type("C07CHost%d" % u, (RegCls,), {"spec": himpl})
+            ArchImpl = type("C07CArch%d" % u, (RegCls,), {"spec": aimpl})
+            if point is not RegCls.spec or himpl is not HostImpl.spec or aimpl is not ArchImpl.spec:
+                raise HarnessError("implementations are expected to be the datasource objects themselves")
+            hds = inner if inner is not None else himpl      # the datasource the host provider is built by
+            hparser = parser(himpl)(type("C07CHP%d" % u, (object,), {}))
+            targets = {"point": point, "host": himpl, "arch": aimpl, "parser": pparser, "hparser": hparser}
+            # ---- registrations (optionally after a look-up: stale-cache window) --------------
+            if case.get("prelook"):
+                for c in (hds, himpl, aimpl, point):
+                    filters.get_filters(c)
+                    filters.get_filters(c, True)
+                labels.add("look-up-before-registration")
+            for n, (p, b, at) in enumerate(regs):
+                if whens[n] != "late":
+                    continue
+                register(n, p, b, at, targets)
                 if case.get("interleave") and n % 2 == 0:
                     filters.get_filters(hds, True)
                     filters.get_filters(aimpl)
@@ -850,26 +1019,61 @@ def check_content(case):
             results = {}      # path -> (dropped matching, kept)
             mh = matching(orig, hb)
 
-            # ---- host side: H (pre-filter) and W (what is persisted: pre-filter + cleaner) ----
+            # ---- host side: H (pre-filter) and W (what is persisted) -----------------------------
+            # How the stored copy comes about is generated: the provider's write() after or BEFORE anything
+            # looked at .content, or the Hydration persister registered as an observer on the broker (what
+            # insights.collect.collect() does), each with or without a Cleaner in the broker (collect() has
+            # none when it is called without a client configuration).  The stored lines must satisfy the same
+            # predicates as .content whichever way they got there.
+            persist = case.get("persist") or {}
+            pmode = persist.get("mode", "content-first")
+            if pmode not in PERSIST_MODES:
+                raise HarnessError("unknown persist mode %r" % pmode)
+            use_cleaner = bool(persist.get("cleaner", True))
+            pwhat = persist.get("what", "point")
+            engine = case.get("engine", "run")
+            labels.add("persist=%s/%s" % (pmode, "cleaner" if use_cleaner else "no-cleaner"))
+            labels.add("engine=" + engine)
             calls = []
             broker = dr.Broker()
-            broker[HostContext] = _recording_host_context(root, calls)
-            broker["cleaner"] = Cleaner(None, None, fqdn="c07host.example.com")
+            broker[HostContext] = hctx = _recording_host_context(root, calls)
+            broker["cleaner"] = Cleaner(None, None, fqdn="c07host.example.com") if use_cleaner else None
+            arch_dir = os.path.join(outroot, "archive")
+            if pmode == "observer":
+                hyd = Hydration(arch_dir, hctx)
+                which_ = {"point": [point], "impl": [himpl], "both": [point, himpl]}.get(pwhat, [point])
+                broker.add_observer(hyd.make_persister(set(which_)))
             _audit_start(root)
             try:
-                dr.run(dr.get_dependency_graph(point), broker)
+                broker = _run(dr, engine, point, broker)
             finally:
                 events = _audit_stop()
             value = broker.get(point)
+
+            def stored_lines(path):
+                with open(path, "rb") as f:
+                    data = f.read().decode("utf-8")
+                if data.endswith("\n"):
+                    data = data[:-1]          # a final newline does not make another line
+                return data.split("\n") if data else []
+
+            def persisted_by_observer():
+                found = []
+                for dp, _dn, fn in os.walk(os.path.join(arch_dir, "data")):
+                    found.extend(os.path.join(dp, x) for x in fn)
+                return sorted(found)
             if not hb:
                 # (e) no filter in force: not collected on a host at all
                 labels.add("no-filter-on-host")
                 if value is not None or himpl in broker or hds in broker:
                     raise Violation("a filterable spec without filters yielded a provider under a host "
-                                    "context: %r" % (value,), kind=kind)
+                                    "context: %r" % (value,), kind=kind, early=early, engine=engine)
                 if calls or events:
                     raise Violation("a filterable spec without filters was not collected, but something "
                                     "was executed or opened for it", commands=calls, events=events)
+                if pmode == "observer" and persisted_by_observer():
+                    raise Violation("a filterable spec without filters was not collected, but the persister "
+                                    "stored something for it", files=persisted_by_observer())
             else:
                 if kind == "glob" and isinstance(value, list) and len(value) == 1:
                     value = value[0]
@@ -877,24 +1081,53 @@ def check_content(case):
                     raise Violation("a filterable %s spec with filters %r yielded no provider under a host "
                                     "context" % (kind, sorted(hb)), value=repr(value),
                                     exceptions=[str(e) for es in broker.exceptions.values() for e in es],
-                                    prelook=case.get("prelook"))
-                try:
-                    hcontent = value.content
-                except (ContentException, CalledProcessError) as e:
-                    hcontent = []
-                    labels.add("host:" + type(e).__name__)
-                results["H"] = validate("host pre-filter (%s)" % kind, orig, hcontent, hb, exact=True)
-                dst = os.path.join(root, "out", "persisted")
-                try:
-                    value.write(dst)
-                    with open(dst, "rb") as f:
-                        data = f.read().decode("utf-8")
-                    wcontent = data.split("\n") if data else []
-                except (ContentException, CalledProcessError) as e:
-                    wcontent = []
-                    labels.add("persist:" + type(e).__name__)
-                results["W"] = validate("host pre-filter + cleaner as persisted (%s)" % kind, orig, wcontent,
-                                        hb, exact=False)
+                                    prelook=case.get("prelook"), early=early)
+                wname = "persisted copy [%s, %s] (%s)" % (pmode, "cleaner" if use_cleaner else "no cleaner", kind)
+
+                def observe_content(tag):
+                    try:
+                        hcontent = value.content
+                    except (ContentException, CalledProcessError) as e:
+                        hcontent = []
+                        labels.add("host:" + type(e).__name__)
+                    # the first look is the plain grep pre-filter, which knows no budgets: exactly the matching
+                    # lines (design O-content); once the copy was stored only the statement's predicates are asked
+                    return validate("host pre-filter (%s)%s" % (kind, tag), orig, hcontent, hb, exact=not tag)
+
+                def observe_write(tag):
+                    dst = os.path.join(outroot, "w%s" % tag, "persisted")
+                    try:
+                        value.write(dst)
+                        wcontent = stored_lines(dst)
+                    except (ContentException, CalledProcessError) as e:
+                        wcontent = []
+                        labels.add("persist:" + type(e).__name__)
+                    return validate(wname + tag, orig, wcontent, hb, exact=False)
+                if pmode == "content-first":
+                    results["H"] = observe_content("")
+                    results["W"] = observe_write("")
+                elif pmode == "write-first":
+                    results["W"] = observe_write("")
+                    results["H"] = observe_content(" after write()")
+                else:
+                    files = persisted_by_observer()
+                    if len(files) > 1:
+                        raise Violation("the persister stored more than one file for one single-file spec",
+                                        files=files)
+                    wcontent = stored_lines(files[0]) if files else []
+                    try:
+                        results["W"] = validate(wname, orig, wcontent, hb, exact=False)
+                    except Violation as v:
+                        if not files:
+                            raise Violation("%s: nothing was stored although lines match the filters (%s)" % (
+                                wname, v), exceptions=[str(e) for es in broker.exceptions.values() for e in es])
+                        raise
+                    results["H"] = observe_content(" after the persister ran")
+                if case.get("again"):
+                    # state carried from one call to the next: write once more, look once more
+                    results["W2"] = observe_write(" (2nd write)")
+                    results["H2"] = observe_content(" (2nd look)")
+                    labels.add("written-and-read-twice")
 
             # ---- archive side: post-filter with budgets --------------------------------------
             abroker = dr.Broker()
@@ -969,6 +1202,7 @@ def check_content(case):
                     raise Violation("applying filters changed the registrations of %s" % k)
     finally:
         shutil.rmtree(root, ignore_errors=True)
+        shutil.rmtree(outroot, ignore_errors=True)
 
     allf = set(hb) | set(ab)
     special = any(p.startswith("-") or any(ch in p for ch in ".*[]()|^$\\+?") for p in allf)
@@ -1019,12 +1253,16 @@ def _content_case(draw, tier):
                          st.builds(lambda s: "-" + s, st.text(alphabet=_ALPHA, min_size=0, max_size=3)))
     else:
         pool = _cpat
-    pats = draw(st.lists(pool, min_size=0 if draw(st.integers(0, 14)) == 0 else 1, max_size=4))
+    # one case in seven has no filter in force on the host (none at all, or only on the archive implementation);
+    # drawn as one explicit choice so that it combines with the other dimensions often enough (clause (e))
+    nof = draw(st.sampled_from([False, False, False, False, False, False, True]))
+    pats = draw(st.lists(pool, min_size=0 if nof else 1, max_size=2 if nof else 4))
     filt = []
     for p in pats:
         filt.append({"p": p, "b": draw(st.sampled_from([1, 1, 2, 2, 3, MAXB, MAXB])),
-                     "at": draw(st.sampled_from(["point", "point", "parser", "host", "arch", "hparser"]))})
-    if filt and draw(st.integers(0, 3)) == 0:    # the same string registered twice (other place / budget)
+                     "at": "arch" if nof else
+                     draw(st.sampled_from(["point", "point", "parser", "host", "arch", "hparser"]))})
+    if filt and not nof and draw(st.integers(0, 3)) == 0:    # the same string registered twice (other place / budget)
         f = dict(filt[0])
         f["b"] = draw(st.sampled_from([1, 2, MAXB]))
         f["at"] = draw(st.sampled_from(PLACES))
@@ -1048,11 +1286,41 @@ def _content_case(draw, tier):
     nmax = 14 if tier == "quick" else 30
     lines = draw(st.lists(line, min_size=1, max_size=nmax))
     lines = [None if l is None else l.replace("password", "passw0rd") for l in lines]
-    return {"lines": lines, "filters": filt,
+    case = {"lines": lines, "filters": filt,
             "kind": draw(st.sampled_from(["file", "file", "first_file", "glob", "first_of", "cmd"])),
             "eof_nl": draw(st.booleans()), "prelook": draw(st.booleans()),
             "interleave": draw(st.booleans()), "one_by_one": draw(st.booleans()),
             "truncate": draw(st.sampled_from([0, 0, 1, 7, 20, 45, 90, 200]))}
+    # ---- the order in which the world comes about, and how the collected copy is stored ----------
+    phase = draw(st.sampled_from(["mixed", "mixed", "mixed", "late", "early", "early", "mid"]))
+    for f in filt:
+        f["when"] = phase if phase != "mixed" else draw(st.sampled_from(["late", "late", "mid", "early"]))
+        if phase == "early" and draw(st.integers(0, 3)) > 0:
+            f["at"] = draw(st.sampled_from(["point", "parser"]))    # (elsewhere only a later registration is possible)
+    has_early = draw(st.sampled_from([True, True, True, False] if nof else [True, False]))
+    case["early"] = draw(st.lists(_early_op, min_size=1, max_size=3)) if has_early else []
+    case["late_wrap"] = draw(st.booleans())
+    case["persist"] = {"mode": draw(st.sampled_from(["content-first", "content-first", "write-first", "write-first",
+                                                      "observer", "observer"])),
+                       "cleaner": draw(st.sampled_from([True, True, True, False, False])),
+                       "what": draw(st.sampled_from(["point", "point", "impl", "both"]))}
+    case["engine"] = draw(st.sampled_from(["run", "run", "run_all"]))
+    case["again"] = draw(st.integers(0, 2)) == 0
+    return case
+
+
+_early_op = st.fixed_dictionaries({"do": st.sampled_from(["get", "eval", "eval"]),
+                                   "on": st.sampled_from(["host", "host", "host", "arch", "arch", "point"]),
+                                   "engine": st.sampled_from(["run", "run", "run_all"])})
+
+def stale_cache_class(case):
+    """the case registers on the spec, then uses a still unbound datasource, then only binds (no registration after
+    the use): the history in which a look-up cached before the binding must not survive it (finding 3)"""
+    whens = [(f.get("when", "late") if f.get("at") in ("point", "parser") else "late") for f in case["filters"]
+             if f.get("p") and "\n" not in f["p"] and f.get("at") in PLACES]
+    used = any(e.get("on", "host") in ("host", "arch") for e in case.get("early") or []
+               if e.get("do") in ("get", "eval"))
+    return bool(used and "early" in whens and not any(w in ("mid", "late") for w in whens))
 
 
 def strat_content(tier):
@@ -1110,6 +1378,22 @@ def selftest():
     assert keys("I0.4") == (["v"], ["d", "v"]) and keys("P4") == (["v"], ["d", "v"])
     assert keys("I0.5") == (["d", "v"], ["d", "v"]) and keys("P5") == (["d", "v"], ["d", "v"])
     assert keys("P2") == ([], []) and keys("I0.3") == ([], []) and keys("X0") == ([], [])
+    # late declaration of a spec set
+    w2 = {"points": ["F", "F"], "sets": [[{"k": "file"}, {"k": "fo_inner"}], [{"k": "cmd"}, None]], "extras": [],
+          "parsers": [{"deps": [{"t": "point", "i": 0}]}, {"deps": [{"t": "impl", "i": 0}]}], "combiners": [],
+          "late": [True, False]}
+    m2 = Model(w2)
+    assert m2.unbound_sets() == [0] and m2.deps["R1"] == ["I0.0"]
+    assert m2.land("I0.0") is None and m2.land("R1") is None and m2.land("R0") == ["P0"] and m2.land("I1.0") == ["I1.0"]
+    assert not m2.attached("I0.0") and not m2.attached("I0.1.1") and m2.attached("I1.0") and m2.attached("P1")
+    m2.register("P0", ["x"], 1)
+    m2.register("P1", ["y"], 1)
+    assert m2.register("R1", ["no"], 1) is None
+    assert m2.bounds("I0.0") == ({}, {}) and sorted(m2.bounds("I1.0")[0]) == ["x"]
+    m2.bind(0)
+    assert m2.unbound_sets() == [] and m2.attached("I0.0") and m2.attached("I0.1.1")
+    assert sorted(m2.bounds("I0.0")[0]) == ["x"] and sorted(m2.bounds("I0.1.0")[0]) == ["y"]
+    assert m2.land("I0.0") == ["I0.0"] and m2.land("R1") == ["I0.0"]
     # predicates
     orig = ["#0#a", "", "#2#ab", "#3#b", "#4#zz", "#5#a"]
 
@@ -1133,7 +1417,7 @@ def selftest():
 
 
 SUBS = [
-    Sub("history", check_history, strategy=strat_history, quick=700, thorough=3000, workers_quick=3,
+    Sub("history", check_history, strategy=strat_history, quick=600, thorough=3000, workers_quick=3,
         workers_thorough=16, budget_quick=20, budget_thorough=400),
     Sub("content", check_content, strategy=strat_content, quick=400, thorough=5000, workers_quick=4,
         workers_thorough=16, budget_quick=35, budget_thorough=500),
@@ -1154,6 +1438,19 @@ REGRESSIONS = [
         "ops": [{"op": "add", "t": {"t": "impl", "i": 0}, "pk": "list", "pats": ["x"], "mm": 2, "kw": True},
                 {"op": "add", "t": {"t": "parser", "i": 0}, "pk": "set", "pats": ["abc", "-d"], "mm": MAXB,
                  "kw": False}]}),
+    # finding 3 (fixed in /repo by e6b285b): registration on the spec, look-up / evaluation of a datasource object
+    # that is not yet declared as implementation, declaration, no further registration -> the look-up stayed empty
+    Reg("stale-cache-across-late-declaration", "history", {
+        "world": dict(_W1, late=[True]), "sweep": "end",
+        "pre": [{"op": "add", "t": {"t": "point", "i": 0}, "pk": "str", "pats": ["abc"], "mm": MAXB, "kw": False},
+                {"op": "get", "t": {"t": "impl", "i": 0}}],
+        "ops": [{"op": "get", "t": {"t": "impl", "i": 0}}]}),
+    Reg("stale-cache-across-late-declaration-archive-content", "content", {
+        "lines": ["keep x", "secret"], "filters": [{"p": "x", "b": MAXB, "at": "point", "when": "early"}],
+        "kind": "file", "eof_nl": True, "prelook": False, "interleave": False, "one_by_one": True, "truncate": 0,
+        "early": [{"do": "eval", "on": "arch", "engine": "run"}, {"do": "eval", "on": "host", "engine": "run"}],
+        "late_wrap": False, "persist": {"mode": "content-first", "cleaner": True, "what": "point"},
+        "engine": "run", "again": False}),
     # finding 2 (fixes/C07-2.patch): only dash-leading filters -> grep takes the list as options
     Reg("dash-leading-filter-file", "content", {
         "lines": ["a -foo b", "xyz", "-bar", None, "-foo"], "filters": [{"p": "-foo", "b": MAXB, "at": "point"}],
